@@ -15,12 +15,12 @@ TECHNIQUE = "runtime monitoring: differential observer across the real save/load
 RULE = ("seeded lists of 1-4 integer-tick sequences, well-formed after channel erasure (the writer emits channel 0), velocities "
         "1-127, time signatures (power-of-two denominators) and all 15 keys at arbitrary ticks on several carrier tracks but never "
         "two different signatures of one kind on one tick, simultaneous events, abutting notes, leading rests, empty sequences, "
-        "control and program changes (also directly before a note after a rest); saved with the real sequences_save and re-loaded with the real sequences_load. Compared: sequence "
+        "control and program changes (also directly before a note after a rest); saved with the real sequences_save (a quarter of the cases: saved, edited in place through the public API, and saved again on the same objects) and re-loaded with the real sequences_load. Compared: sequence "
         "count/order, per-track (pitch, onset, duration, velocity) multisets, time signature in force (default 4/4) and key in "
         "force at every tick up to the end. Non-trivial: >= 2 notes and a signature or key.")
 PLAN = {"quick": {"cases": 1200, "jobs": 4, "timeout": 600},
         "thorough": {"cases": 60000, "jobs": 16, "timeout": 3000, "budget_s": 420}}
-FLOORS = {"quick": {"c12.tracks_compared": 2000, "c12.signature_cases": 600, "c12.key_cases": 600, "c12.raw_file_checked": 1000, "c12.program_change_cases": 150},
+FLOORS = {"quick": {"c12.tracks_compared": 2000, "c12.signature_cases": 600, "c12.key_cases": 600, "c12.raw_file_checked": 1000, "c12.program_change_cases": 150, "c12.saved_twice": 200},
           "thorough": {"c12.tracks_compared": 100000}}
 SIGS = [(4, 4), (3, 4), (6, 8), (5, 4), (2, 2), (7, 8), (12, 8), (3, 16), (1, 1), (9, 8)]
 
@@ -65,7 +65,13 @@ def make_case(rng, i, tier):
         if rng.random() < 0.25:
             spec["pad"] = rng.randrange(0, 250)
         seqs.append(spec)
-    return {"seqs": seqs}
+    # history stratum: save, edit in place through the public API, save AGAIN on the same objects; the second file is the
+    # one compared (a writer-side cache that survives an edit shows here)
+    again = None
+    if i % 4 == 3:
+        again = [{"op": rng.choice(["transpose", "scale", "set_channel", "iter_rel_velocity_edit", "pad", "add_note"]),
+                  "k": rng.choice([1, 2, -3, 5]), "s": rng.randrange(len(seqs))} for _ in range(rng.randint(1, 2))]
+    return {"seqs": seqs, "again": again}
 
 
 def _erase(notes):
@@ -77,8 +83,36 @@ def run(case, ctx):
     from vmon.monitors import LOG
     from scoda.sequences.sequence import Sequence
     seqs = [gen.build_seq(s) for s in case["seqs"]]
-    pre = [obs(s) for s in seqs]
     fails = []
+    if case.get("again"):
+        from scoda.elements.message import Message
+        from scoda.enumerations.message_type import MessageType as MT
+        p0 = os.path.join(ctx.scratch, f"c12a_{os.getpid()}.mid")
+        try:
+            Sequence.sequences_save(seqs, p0)
+        finally:
+            if os.path.exists(p0):
+                os.remove(p0)
+        LOG.n("c12.saved_twice")
+        for op in case["again"]:
+            q = seqs[op["s"] % len(seqs)]
+            if op["op"] == "transpose":
+                q.transpose(op["k"])
+            elif op["op"] == "scale":
+                q.scale(abs(op["k"]) + 1, quantise_afterwards=False)
+            elif op["op"] == "set_channel":
+                q.set_channel(abs(op["k"]))
+            elif op["op"] == "iter_rel_velocity_edit":
+                for m in q.messages_rel():
+                    if m.message_type == MT.NOTE_ON:
+                        m.velocity = (m.velocity % 127) + 1
+            elif op["op"] == "pad":
+                q.pad(400)
+            else:
+                d = obs(q)["dur"]
+                q.add_absolute_message(Message(message_type=MT.NOTE_ON, note=20 + abs(op["k"]), velocity=77, time=d + 3))
+                q.add_absolute_message(Message(message_type=MT.NOTE_OFF, note=20 + abs(op["k"]), time=d + 9))
+    pre = [obs(s) for s in seqs]
     path = os.path.join(ctx.scratch, f"c12_{os.getpid()}.mid")
     try:
         Sequence.sequences_save(seqs, path)
